@@ -217,6 +217,11 @@ def template_items(tier):
             continue
         s = cand[0]
         items.append(T.item(f"tmpl/renorm-{label}/iterates-renorm.matrix", s.loop_iters()[-1:] == ["renorm.matrix"], str(s.loop_iters())))
+        # every entry of the coupling matrix is assigned, the zero ones too: the matrix handed to InitRenorm is not guaranteed to be
+        # zero-filled (boost::numeric::ublas::matrix leaves fresh storage uninitialised)
+        inner = [g for g in s.guards if "renorm" in T.etext(g[0] if isinstance(g, tuple) else g) or True]
+        items.append(T.item(f"tmpl/renorm-{label}/every-matrix-entry-assigned-unconditionally", len(s.guards) == 0,
+                            f"guards around the assignment: {[T.etext(g[0] if isinstance(g, tuple) else g) for g in s.guards]}"))
         ex = s.exprs
         ok = len(ex) == 3 and isinstance(ex[0], nodes.Getitem) and isinstance(ex[1], nodes.Getitem) and \
             T.etext(ex[0].node) == "elemidxnames" and T.etext(ex[1].node) == "elemidxnames"
@@ -309,6 +314,20 @@ def driver_items(tier):
         items.append(item(f"{pre}/factors-computed-from-the-solution", app is not None and store.get(app.group(1), app.group(1)) == solvec,
                           f"RenormAbundance({app.group(1) if app else '?'}, ab)"))
         items.append(item(f"{pre}/frame-stored-reference-not-modified", "ab_ref_" not in written, f"storage written by Renorm: {sorted(set(written))}"))
+        m2 = re.search(r"int\s+Naunet::SetReferenceAbund\s*\([^)]*\)\s*\{", text)
+        if m2:
+            depth, j2 = 1, m2.end()
+            while j2 < len(text) and depth:
+                depth += {"{": 1, "}": -1}.get(text[j2], 0)
+                j2 += 1
+            sbody = text[m2.end():j2 - 1]
+            asg = re.findall(r"\bab_ref_\s*\[([^\]]*)\]\s*([-+*/]?=)(?!=)\s*([^;]*);", sbody)
+            ok = bool(asg) and all(op == "=" and "ab_ref_" not in rhs for _, op, rhs in asg)
+            shape = all(re.fullmatch(r"ref\[i\]\s*/\s*ref\[IDX_ELEM_H\]|GetElementAbund\(ref,\s*i\)\s*/\s*Hnuclei", rhs.strip()) for _, _, rhs in asg)
+            items.append(item(f"{pre}/reference-ratios-computed-from-the-argument-only", ok, f"{asg}"))
+            items.append(item(f"{pre}/reference-ratios-are-element-over-hydrogen", ok and shape and len(asg) == 2, f"{[r for _, _, r in asg]}"))
+        else:
+            items.append(item(f"{pre}/SetReferenceAbund-found", False, "no Naunet::SetReferenceAbund in the rendered driver (network with H)"))
         ini = re.search(r"InitRenorm\(\s*ab\s*,\s*(\w+)\s*\)", body)
         items.append(item(f"{pre}/matrix-built-from-the-current-abundances", ini is not None and (sol.start() > ini.start()), ""))
     return items
